@@ -6,6 +6,7 @@ CONSTANTS
   MaxForget = 2
   MaxFail = 1
   Cancellable = {"e2"}
+  MaxReprepare = 3
   UniqueIds = TRUE
   Plans <- PlansAll
 INVARIANT EmitWalk
